@@ -700,6 +700,22 @@ func (w *world) prim(c *chn, op string, st *kernel.Step) {
 			w.checkCrashPoints(c, op, err, before, after, b0, b1)
 		case modeWriteErr:
 			w.checkAfterWriteErr(c, op, before, after)
+			if w.opFailed && op == "sig" && w.res.Violation == nil && c.created {
+				// the caller retries: Sig is idempotent, and once it returns nil the
+				// operation has completed - the store must hold the own signature
+				rerr, rpan := guard(func() error { _, e := c.psm.Sig(w.ctx); return e })
+				w.res.Count("probe.sig-retried-after-write-error", 1)
+				if rpan == nil && rerr == nil {
+					live := snapOf(c.m, c.peers, c.parent)
+					w.checkImage(c, "sig (retried after a write error)", dump(w.inner), live, live, true, 0, 0)
+					if w.res.Violation == nil {
+						// healed: the channel carries on
+						w.opFailed = false
+						after = live
+						w.curImage = dump(w.inner)
+					}
+				}
+			}
 		case modeViews:
 			// reference first: the views are compared with the state after the operation
 			if w.opFailed {
